@@ -48,7 +48,7 @@ KIND = {            # kind -> (xdsl.dialects.test class name, removable when all
 }
 REMOVABLE_KINDS = ("pure", "read")
 KEEP_KINDS = ("write", "unknown")
-STEP_CAP = 2000                       # pops per execution; the legitimate maximum is < 3 * (ops + values)
+STEP_CAP = 400                        # pops per execution; the legitimate maximum on these blocks is below 20
 
 # analyses load orders.  D = DeadCodeAnalysis, L = LivenessAnalysis, Si = Seeder marking exit states from its
 # initialize, Sw = Seeder marking them from worklist visits.
